@@ -291,7 +291,7 @@ def r3(ctx, R):
     N = Normalizer(fn)
     sets = [c for c in N.contribs if c.target == 'self.params.do_coll_update' and c.rhs == 'True']
     ok = len(sets) == 1 and bool_nf(ast.parse(sets[0].guards[-1], mode='eval').body) == ('and', ('not', 'self.coll.right_is_node'), ('not', 'self.params.do_coll_update')) if sets and sets[0].guards else False
-    if sets and sets[0].guards:
+    if sets and len(sets[0].guards) == 1:
         nf = bool_nf(ast.parse(sets[0].guards[-1], mode='eval').body)
         ok = len(sets) == 1 and nf == ('and', tuple(sorted([('not', 'self.coll.right_is_node'), ('not', 'self.params.do_coll_update')], key=repr)))
     R.check(ok, 'Sweeper.__init__ :: do_coll_update forced when right end point is not a node', w, 'self.params.do_coll_update = True if not right_is_node and not do_coll_update', [c.describe() for c in sets])
